@@ -24,7 +24,8 @@ def argObj (lo : Bool) (d : List Byte) (anyBuffer : Ptr) (anyCap : Nat) : Obj :=
 /-- `resize`: reallocate / non-owning / in place / compact to front -/
 theorem tr_resize (v : Nat) (b : Buf) (hb : BInv v b) (L : Ledger) (hl : LiveIn b L) (hbd : Bounded L)
     (arg : List Byte) (size : Nat) :
-    (Gen.resize v (objOf b) size (heapOf b L arg)).map out = (b.resize size 0 L).map outB := by
+    (Gen.resize v (objOf b) size (heapOf b L arg)).map out =
+      (b.resize size (capOf (Gen.resize v (objOf b) size (heapOf b L arg))) L).map outB := by
   obtain ⟨st, s, e, cap⟩ := b
   cases st with
   | own id m =>
@@ -124,7 +125,8 @@ theorem tr_attach (v : Nat) (b : Buf) (hb : BInv v b) (L : Ledger) (hl : LiveIn 
 /-- `reserve` -/
 theorem tr_reserve (v : Nat) (b : Buf) (hb : BInv v b) (L : Ledger) (hl : LiveIn b L) (hbd : Bounded L)
     (arg : List Byte) (n : Nat) :
-    (Gen.reserve v (objOf b) n (heapOf b L arg)).map out = (b.reserve n 0 L).map outB := by
+    (Gen.reserve v (objOf b) n (heapOf b L arg)).map out =
+      (b.reserve n (capOf (Gen.reserve v (objOf b) n (heapOf b L arg))) L).map outB := by
   obtain ⟨st, s, e, cap⟩ := b
   cases st with
   | own id m =>
@@ -148,7 +150,8 @@ theorem tr_reserve (v : Nat) (b : Buf) (hb : BInv v b) (L : Ledger) (hl : LiveIn
 /-- `prepend(data, size)` with `data` outside the object: head-room / shift in place / reallocate -/
 theorem tr_prepend (v : Nat) (b : Buf) (hb : BInv v b) (L : Ledger) (hl : LiveIn b L) (hbd : Bounded L)
     (data : List Byte) (lo : Bool) :
-    (Gen.prepend v (objOf b) (argPtr lo) data.length (heapOf b L data)).map out = (b.prepend data 0 L).map outB := by
+    (Gen.prepend v (objOf b) (argPtr lo) data.length (heapOf b L data)).map out =
+      (b.prepend data (capOf (Gen.prepend v (objOf b) (argPtr lo) data.length (heapOf b L data))) L).map outB := by
   obtain ⟨st, s, e, cap⟩ := b
   cases st with
   | own id m =>
@@ -172,7 +175,8 @@ theorem tr_prepend (v : Nat) (b : Buf) (hb : BInv v b) (L : Ledger) (hl : LiveIn
     after it copied: the same result) -/
 theorem tr_assign (v : Nat) (b : Buf) (hb : BInv v b) (L : Ledger) (hl : LiveIn b L) (hbd : Bounded L)
     (data : List Byte) (lo : Bool) :
-    (Gen.assign v (objOf b) (argPtr lo) data.length (heapOf b L data)).map out = (b.assign data 0 L).map outB := by
+    (Gen.assign v (objOf b) (argPtr lo) data.length (heapOf b L data)).map out =
+      (b.assign data (capOf (Gen.assign v (objOf b) (argPtr lo) data.length (heapOf b L data))) L).map outB := by
   obtain ⟨st, s, e, cap⟩ := b
   cases st with
   | own id m =>
@@ -190,7 +194,8 @@ theorem tr_assign (v : Nat) (b : Buf) (hb : BInv v b) (L : Ledger) (hl : LiveIn 
 /-- `operator=(const Buffer& other)`, `other` another object with exposed bytes `data` -/
 theorem tr_assignBuf (v w : Nat) (b : Buf) (hb : BInv v b) (L : Ledger) (hl : LiveIn b L) (hbd : Bounded L)
     (data : List Byte) (lo : Bool) (ob : Ptr) (oc : Nat) :
-    (Gen.assignBuf v (objOf b) w (argObj lo data ob oc) (heapOf b L data)).map out = (b.assign data 0 L).map outB := by
+    (Gen.assignBuf v (objOf b) w (argObj lo data ob oc) (heapOf b L data)).map out =
+      (b.assign data (capOf (Gen.assignBuf v (objOf b) w (argObj lo data ob oc) (heapOf b L data))) L).map outB := by
   obtain ⟨st, s, e, cap⟩ := b
   cases st with
   | own id m =>
